@@ -125,6 +125,7 @@ def serialize_constraint(ctc: Constraint) -> str:
     ctc_str = re.sub(fr'\b{ASTOperation.EQUIVALENCE.value}\b', '<=>', ctc_str)
     ctc_str = re.sub(fr'\b{ASTOperation.REQUIRES.value}\b', '=>', ctc_str)
     ctc_str = re.sub(fr'\b{ASTOperation.EXCLUDES.value}\b', '=> not', ctc_str)
+    ctc_str = re.sub(fr'\b{ASTOperation.XOR.value}\b', 'xor', ctc_str)
     return f'[{ctc_str}]'
 
 
